@@ -135,7 +135,44 @@ def ext_types():
     return _ext_types() + scaled_grid_types()
 
 
+def default_edge_types():
+    """every property of every datatype kind at the values where description and rebuild treat it specially: (a) the default
+    of its Property (not exported), (b) the default of the property's own datatype (0 / '' / False), (c) the "unlimited"
+    sentinel, (d) one of these combined with a non-default partner - one sub-list per kind, plus containers of them"""
+    big = 1 << 64                      # frappy.datatypes.UNLIMITED
+    doubles = [
+        ('double', 0.0, 0.0, None, None), ('double', None, 0.0, None, None), ('double', 0.0, None, None, None),
+        ('double', -T.FMAX, T.FMAX, 0.0, T.DEFAULT_REL, (('unit', ''), ('fmtstr', '%g'))),      # every property given, all default
+        ('double', None, None, None, None, (('fmtstr', '%g'), ('unit', 'K'))), ('double', 0.0, 1.0, 0.0, T.DEFAULT_REL),
+    ]
+    ints = [('int', 0, 0), ('int', None, 0), ('int', 0, None), ('int', -16777216, 16777216), ('int', -big, big),
+            ('int', -big, 0), ('int', 1, 1)]
+    scaleds = [
+        ('scaled', 0.1, 0.0, 0.0), ('scaled', 1.0, 0.0, 5.0), ('scaled', 1.0, None, None),
+        ('scaled', 0.5, None, None, (('absolute_resolution', 0.5), ('relative_resolution', T.DEFAULT_REL), ('unit', ''),
+                                     ('fmtstr', '%g'))),
+        ('scaled', 0.5, 0.0, 0.5, (('absolute_resolution', 0.0),)),
+    ]
+    strings = [('string', 0, 0, False), ('string', 0, 0, True), ('string', 3, None, False), ('string', 1, None, True),
+               ('string', 1, 1, False), ('string', 3, big, False), ('string', 0, big, True)]
+    blobs = [('blob', 0, 0), ('blob', 0, 1), ('blob', 1, 1), ('blob', 3, 255)]
+    i09 = ('int', 0, 9)
+    arrays = [('array', i09, 1, 1), ('array', i09, 0, 1), ('array', i09, 0, 100), ('array', i09, 100, 100)[:3] + (3,),
+              ('array', strings[2], 0, 2), ('array', blobs[0], 0, 0), ('array', blobs[0], 1, 2), ('array', doubles[0], 0, 1)]
+    others = [
+        ('struct', (('a', i09), ('b', ('bool',))), ('a', 'b')),            # every member listed: equals the default "all"
+        ('struct', (('a', ints[0]), ('b', doubles[0])), ('a', 'b')), ('struct', (('a', strings[2]), ('b', blobs[0])), ('b',)),
+        ('tuple', (blobs[0], strings[0])), ('tuple', (strings[3], scaleds[0], ints[0])),
+        ('enum', (('zero', 0),)), ('enum', (('n', -1), ('z', 0), ('p', 1))),
+    ]
+    return doubles + ints + scaleds + strings + blobs + arrays + others
+
+
 def _ext_types():
+    return _ext_types0() + default_edge_types()
+
+
+def _ext_types0():
     a, b, c, d, e = EXT_LEAVES
     p, z = PRECISE_LEAVES, ZERO_RES_LEAVES
     return EXT_LEAVES + [
@@ -162,6 +199,9 @@ def build(spec):
         return D.FloatRange(spec[1], spec[2], **kw)
     if k == 'scaled' and len(spec) > 4:
         return D.ScaledInteger(spec[1], spec[2], spec[3], **dict(spec[4]))
+    if k == 'string' and spec[2] is None:
+        # no upper limit in the spec: say so (StringType(3) alone means "exactly 3 characters")
+        return D.StringType(spec[1], D.UNLIMITED, isUTF8=spec[3])
     if k == 'array':
         return D.ArrayOf(build(spec[1]), spec[2], spec[3])
     if k == 'tuple':
